@@ -540,6 +540,17 @@ func (b *BlockList) persist(s blockSnapshot) {
 		return
 	}
 
+	// On a first start the directory is only created by the start-up
+	// refresh, a second after New, while the API is serving already: an
+	// update landing in that window found nowhere to write, was reported
+	// as done and never written again.
+	if b.cfg.BlockListDir != "" {
+		if err := os.MkdirAll(b.cfg.BlockListDir, 0750); err != nil {
+			zlog.Warn("Blocklist persist failed: create directory", "dir", b.cfg.BlockListDir, "error", err.Error())
+			return
+		}
+	}
+
 	path := filepath.Join(b.cfg.BlockListDir, "local")
 	tmp, err := os.CreateTemp(b.cfg.BlockListDir, "local.tmp.*")
 	if err != nil {
